@@ -241,6 +241,8 @@ def verify_function(src: Source, reg: Registry, contract: Contract, prefix: str,
                     z3_timeout=None, solve=True) -> FunctionReport:
     rep = FunctionReport(contract.key)
     t0 = time.time()
+    from .values import reset_names
+    reset_names()
     eng = Engine(src, reg)
     try:
         fi = src.function(contract.key)
